@@ -17,6 +17,11 @@ use std::io::{Cursor, Write};
 
 type Pkg = msi::Package<crate::medium::Handle>;
 
+thread_local! {
+    /// Property the scenarios report under (C04 reuses them for "a refused call changes nothing").
+    static PROP: std::cell::Cell<&'static str> = std::cell::Cell::new("C20");
+}
+
 struct Bench {
     med: Medium,
     pkg: Option<Pkg>,
@@ -61,6 +66,13 @@ impl Bench {
             Some(p) => p,
             None => return Err(Fail { clause: "no-package".into(), what: "package lost after an earlier panic".into() }),
         };
+        // the saved file's string accounting before the step (only compared when the step is refused)
+        let acct_before = if light {
+            None
+        } else {
+            let _ = guarded(|| pkg.flush());
+            fmt_codec::decode(&self.med.live()).ok().map(|d| fmt_codec::account(&d))
+        };
         let r = guarded(|| f(pkg));
         let out = match r {
             Err(p) => {
@@ -95,6 +107,18 @@ impl Bench {
             }
         }
         let bytes = self.med.live();
+        // a refused step must not leave strings behind in the saved file (entries nobody refers to)
+        if out == Outcome::Err {
+            if let (Some(a0), Ok(d1)) = (&acct_before, fmt_codec::decode(&bytes)) {
+                let a1 = fmt_codec::account(&d1);
+                if a0.is_empty() && !a1.is_empty() {
+                    return Err(Fail {
+                        clause: "err-changed-saved-strings".into(),
+                        what: format!("{} returned an error but the saved string pool no longer matches the saved tables: {}", what, a1[..a1.len().min(3)].join("; ")),
+                    });
+                }
+            }
+        }
         let re = guarded(|| {
             let mut p = msi::Package::open(Cursor::new(bytes)).map_err(|e| e.to_string())?;
             observe(&mut p).map(|(o, _)| o)
@@ -138,11 +162,12 @@ impl Bench {
 fn expect(rep: &mut Report, limit: &str, mode: &str, what: &str, got: Result<Outcome, Fail>, want: Option<Outcome>) -> bool {
     rep.case(Some(fnv(format!("{}:{}:{}", limit, mode, what).as_bytes())));
     rep.count(&format!("boundary_steps_{}", limit));
-    let w = json!({"limit": limit, "mode": mode, "step": what});
+    let w = json!({"kind": "capacity", "limit": limit, "mode": mode, "step": what});
+    let prop = PROP.with(|p| p.get());
     match got {
         Err(f) if f.clause == "no-package" => false,
         Err(f) => {
-            rep.violation(format!("C20/{}/{}/{}", limit, mode, f.clause), format!("[{} / {}] {}", limit, mode, f.what), w);
+            rep.violation(format!("{}/{}/{}/{}", prop, limit, mode, f.clause), format!("[{} / {}] {}", limit, mode, f.what), w);
             false
         }
         Ok(o) => {
@@ -150,7 +175,7 @@ fn expect(rep: &mut Report, limit: &str, mode: &str, what: &str, got: Result<Out
                 if o != wnt {
                     let clause = if wnt == Outcome::Ok { "refused-within-limit" } else { "accepted-beyond-limit" };
                     rep.violation(
-                        format!("C20/{}/{}/{}", limit, mode, clause),
+                        format!("{}/{}/{}/{}", prop, limit, mode, clause),
                         format!("[{} / {}] {}: expected {:?}, got {:?}", limit, mode, what, wnt, o),
                         w,
                     );
@@ -183,13 +208,18 @@ fn columns_limit(rep: &mut Report) {
 }
 
 fn rows(from: i32, to: i32) -> Vec<Vec<msi::Value>> {
-    (from..to).map(|i| vec![msi::Value::Int(i)]).collect()
+    // rows beyond the limit carry a string nobody else uses (a refused row must not leave it behind)
+    (from..to).map(|i| vec![msi::Value::Int(i), if i > 65_536 { msi::Value::Str(format!("beyond-{}", i)) } else { msi::Value::Null }]).collect()
+}
+
+fn row_cols() -> Vec<msi::Column> {
+    vec![msi::Column::build("K").primary_key().int32(), msi::Column::build("V").nullable().string(32)]
 }
 
 fn row_limit(rep: &mut Report, mode: &str) {
     const L: i32 = 65_536;
     let mut b = Bench::new();
-    b.pkg.as_mut().unwrap().create_table("R", vec![msi::Column::build("K").primary_key().int32()]).expect("create R");
+    b.pkg.as_mut().unwrap().create_table("R", row_cols()).expect("create R");
     let ins = |from: i32, to: i32| move |p: &mut Pkg| p.insert_rows(msi::Insert::into("R").rows(rows(from, to)));
     let mut ok = true;
     match mode {
@@ -199,7 +229,7 @@ fn row_limit(rep: &mut Report, mode: &str) {
             ok &= ok && expect(rep, "rows-65536", mode, "1 more row (L+1)", b.step("insert bringing the table to 65,537 rows", false, ins(L + 1, L + 2)), Some(Outcome::Err));
             if ok {
                 // a fresh table, L+1 rows in a single batch
-                b.pkg.as_mut().unwrap().create_table("R2", vec![msi::Column::build("K").primary_key().int32()]).expect("create R2");
+                b.pkg.as_mut().unwrap().create_table("R2", row_cols()).expect("create R2");
                 let r = b.step("single batch of 65,537 rows", false, |p| p.insert_rows(msi::Insert::into("R2").rows(rows(1, L + 2))));
                 expect(rep, "rows-65536", mode, "single batch of L+1 rows", r, Some(Outcome::Err));
                 let r = b.step("single batch of 65,536 rows", false, |p| p.insert_rows(msi::Insert::into("R2").rows(rows(1, L + 1))));
@@ -303,6 +333,28 @@ fn pool_limit(rep: &mut Report, mode: &str) {
                 expect(rep, "pool-65535", mode, "create_table at the pool limit", r, None);
             }
         }
+        "create-table-at-limit" => {
+            // exactly three free entries: a table whose catalog rows need four new strings is refused
+            // as a whole, one that needs exactly three fits
+            ok &= expect(rep, "pool-65535", mode, "fill to L", b.step("insert of distinct strings up to 65,535 pool entries", true, ins(0, room)), Some(Outcome::Ok));
+            let del = |p: &mut Pkg| p.delete_rows(msi::Delete::from("S").with(msi::Expr::col("K").lt(msi::Expr::string("s00003"))));
+            ok &= ok && expect(rep, "pool-65535", mode, "delete 3 strings", b.step("delete of 3 rows", false, del), Some(Outcome::Ok));
+            let with_enum = |p: &mut Pkg| {
+                p.create_table("Extra", vec![msi::Column::build("Key2").primary_key().string(16), msi::Column::build("Mode").nullable().enum_values(&["red", "green"]).string(16)])
+            };
+            ok &= ok && expect(rep, "pool-65535", mode, "create_table needing 4 new strings with 3 free", b.step("create_table (names + an enumeration) with 3 free pool entries", false, with_enum), Some(Outcome::Err));
+            let with_cat = |p: &mut Pkg| {
+                p.create_table("Extra", vec![msi::Column::build("Key2").primary_key().string(16), msi::Column::build("Mode").nullable().category(msi::Category::Cabinet).string(16)])
+            };
+            ok &= ok && expect(rep, "pool-65535", mode, "create_table needing names + a category with 3 free", b.step("create_table (names + a category new to the pool) with 3 free pool entries", false, with_cat), Some(Outcome::Err));
+            let with_fk = |p: &mut Pkg| {
+                p.create_table("Extra", vec![msi::Column::build("Key2").primary_key().string(16), msi::Column::build("Mode").nullable().foreign_key("Elsewhere", 1).string(16)])
+            };
+            ok &= ok && expect(rep, "pool-65535", mode, "create_table needing names + a foreign-key table name with 3 free", b.step("create_table (names + a foreign key) with 3 free pool entries", false, with_fk), None);
+            let plain = |p: &mut Pkg| p.create_table("Extra", vec![msi::Column::build("Key2").primary_key().string(16), msi::Column::build("Mode").nullable().string(16)]);
+            ok &= ok && expect(rep, "pool-65535", mode, "create_table needing exactly 3 new strings", b.step("create_table (names only) with 3 free pool entries", false, plain), Some(Outcome::Ok));
+            ok &= ok && expect(rep, "pool-65535", mode, "1 more string", b.step("insert of a new string at the refilled limit", false, ins(room, room + 1)), Some(Outcome::Err));
+        }
         "incremental-with-reopen" => {
             let third = room / 3;
             let mut at = 0;
@@ -396,6 +448,18 @@ fn name_limits(rep: &mut Report) {
     }
 }
 
+/// The scenarios in which a refused call must change nothing, reported under C04.
+pub fn capacity_for_c04(which: usize, rep: &mut Report) {
+    PROP.with(|p| p.set("C04"));
+    match which {
+        0 => row_limit(rep, "one-batch"),
+        1 => pool_limit(rep, "one-batch"),
+        _ => pool_limit(rep, "create-table-at-limit"),
+    }
+    PROP.with(|p| p.set("C20"));
+    rep.count("capacity_scenarios");
+}
+
 pub fn run(ctx: &Ctx) -> Report {
     let thorough = !ctx.quick();
     let replay_only: Option<(String, String)> = ctx.replay.as_ref().map(|w| (w["limit"].as_str().unwrap_or("").to_string(), w["mode"].as_str().unwrap_or("").to_string()));
@@ -405,6 +469,7 @@ pub fn run(ctx: &Ctx) -> Report {
     let _ = thorough;
     jobs.push(("pool-65535", "incremental-with-reopen"));
     jobs.push(("pool-65535", "after-deletions"));
+    jobs.push(("pool-65535", "create-table-at-limit"));
     if let Some((l, m)) = &replay_only {
         jobs.retain(|(jl, jm)| (jl == l || (*jl == "names" && (l == "name-31-units" || l == "table-name" || l == "column-name"))) && (jm == m || *jl == "names" || *jl == "columns-32"));
     }
